@@ -109,6 +109,16 @@ def dags(thorough=False):
     out['merkle-proof'] = [SCell(''.join(format(b, '08b') for b in proof_data), [pruned], exotic=True, mask=0)]
     out['ordinary-over-pruned'] = [SCell(bits_of('op', 10), [pruned, SCell(bits_of('ol', 3))], mask=1)]
 
+    # pruned branches of every level mask (gaps included: 2, 4, 5, 6 arise when a proof prunes inside a Merkle update / nested proofs);
+    # an ordinary cell above them carries the union of their masks
+    def pruned_of(m):
+        pc = bin(m).count('1')
+        hashes = bits_of(f'prh{m}', 256 * pc)
+        depths = ''.join(format(3 + i, '016b') for i in range(pc))      # small stored depths: the parents stay far below the depth limit
+        return SCell(format(1, '08b') + format(m, '08b') + hashes + depths, [], exotic=True, mask=m)
+    out['pruned-masks-2456'] = [SCell(bits_of('pm1', 11), [pruned_of(2), pruned_of(4), pruned_of(5), pruned_of(6)], mask=7)]
+    out['pruned-masks-37'] = [SCell(bits_of('pm2', 12), [pruned_of(3), SCell(bits_of('pm3', 4), [pruned_of(7)], mask=7)], mask=7)]
+
     def tree(depth, fan, tag):
         cnt = [0]
 
